@@ -74,67 +74,80 @@ Definition decode_group (it : list Z) : seq_group :=
      g_end := be_val (take 4 (drop 4 it));
      g_gid := be_val (take 4 (drop 8 it)) |}.
 
-(* impl ReadBinary for CmapSubtable: read *)
+(* impl ReadBinary for CmapSubtable: read -- one function per `match subtable_format` arm, each
+   applied to the bytes that follow the format word *)
+Definition parse0 (d : list Z) : outcome subtable :=
+  '(length, d) <- rd_u16 d ;;
+  _ <- check (3 * 2 + 256 <=? length) ;;
+  '(language, d) <- rd_u16 d ;;
+  '(gids, d) <- rd_u8s 256 d ;;
+  Ok (F0 language gids).
+
+Definition parse2 (d : list Z) : outcome subtable :=
+  '(_length, d) <- rd_u16 d ;;
+  '(language, d) <- rd_u16 d ;;
+  '(keys, d) <- rd_u16s 256 d ;;
+  let max_index := fold_right Z.max 0 (map (fun v => v / 8) keys) in
+  let scope := d in
+  '(items, d) <- rd_array 8 (max_index + 1) d ;;
+  Ok (F2 language keys (map decode_sub_header items) scope).
+
+Definition parse4 (d : list Z) : outcome subtable :=
+  '(length, d) <- rd_u16 d ;;
+  '(language, d) <- rd_u16 d ;;
+  '(seg_count_x2, d) <- rd_u16 d ;;
+  _ <- check (Z.even seg_count_x2) ;;
+  let seg_count := seg_count_x2 / 2 in
+  '(_search_range, d) <- rd_u16 d ;;
+  '(_entry_selector, d) <- rd_u16 d ;;
+  '(_range_shift, d) <- rd_u16 d ;;
+  '(ends, d) <- rd_u16s seg_count d ;;
+  '(_reserved_pad, d) <- rd_u16 d ;;
+  '(starts, d) <- rd_u16s seg_count d ;;
+  '(deltas, d) <- rd_i16s seg_count d ;;
+  '(ros, d) <- rd_u16s seg_count d ;;
+  _ <- check ((8 + 4 * seg_count) * 2 <=? length) ;;
+  let remaining := length - (8 + 4 * seg_count) * 2 in
+  _ <- check (Z.even remaining) ;;
+  let num_indices := remaining / 2 in
+  '(gids, d) <- rd_u16s num_indices d ;;
+  Ok (F4 language ends starts deltas ros gids).
+
+Definition parse6 (d : list Z) : outcome subtable :=
+  '(_length, d) <- rd_u16 d ;;
+  '(language, d) <- rd_u16 d ;;
+  '(first_code, d) <- rd_u16 d ;;
+  '(entry_count, d) <- rd_u16 d ;;
+  '(gids, d) <- rd_u16s entry_count d ;;
+  Ok (F6 language first_code gids).
+
+Definition parse10 (d : list Z) : outcome subtable :=
+  '(reserved, d) <- rd_u16 d ;;
+  _ <- check (reserved =? 0) ;;
+  '(_length, d) <- rd_u32 d ;;
+  '(language, d) <- rd_u32 d ;;
+  '(start_char_code, d) <- rd_u32 d ;;
+  '(num_chars, d) <- rd_u32 d ;;
+  '(gids, d) <- rd_u16s num_chars d ;;
+  Ok (F10 language start_char_code gids).
+
+Definition parse12 (d : list Z) : outcome subtable :=
+  '(reserved, d) <- rd_u16 d ;;
+  _ <- check (reserved =? 0) ;;
+  '(_length, d) <- rd_u32 d ;;
+  '(language, d) <- rd_u32 d ;;
+  '(num_groups, d) <- rd_u32 d ;;
+  '(items, d) <- rd_array 12 num_groups d ;;
+  Ok (F12 language (map decode_group items)).
+
 Definition parse (d : list Z) : outcome subtable :=
   '(fmt, d) <- rd_u16 d ;;
-  if fmt =? 0 then
-    '(length, d) <- rd_u16 d ;;
-    _ <- check (3 * 2 + 256 <=? length) ;;
-    '(language, d) <- rd_u16 d ;;
-    '(gids, d) <- rd_u8s 256 d ;;
-    Ok (F0 language gids)
-  else if fmt =? 2 then
-    '(_length, d) <- rd_u16 d ;;
-    '(language, d) <- rd_u16 d ;;
-    '(keys, d) <- rd_u16s 256 d ;;
-    let max_index := fold_right Z.max 0 (map (fun v => v / 8) keys) in
-    let scope := d in
-    '(items, d) <- rd_array 8 (max_index + 1) d ;;
-    Ok (F2 language keys (map decode_sub_header items) scope)
-  else if fmt =? 4 then
-    '(length, d) <- rd_u16 d ;;
-    '(language, d) <- rd_u16 d ;;
-    '(seg_count_x2, d) <- rd_u16 d ;;
-    _ <- check (Z.even seg_count_x2) ;;
-    let seg_count := seg_count_x2 / 2 in
-    '(_search_range, d) <- rd_u16 d ;;
-    '(_entry_selector, d) <- rd_u16 d ;;
-    '(_range_shift, d) <- rd_u16 d ;;
-    '(ends, d) <- rd_u16s seg_count d ;;
-    '(_reserved_pad, d) <- rd_u16 d ;;
-    '(starts, d) <- rd_u16s seg_count d ;;
-    '(deltas, d) <- rd_i16s seg_count d ;;
-    '(ros, d) <- rd_u16s seg_count d ;;
-    _ <- check ((8 + 4 * seg_count) * 2 <=? length) ;;
-    let remaining := length - (8 + 4 * seg_count) * 2 in
-    _ <- check (Z.even remaining) ;;
-    let num_indices := remaining / 2 in
-    '(gids, d) <- rd_u16s num_indices d ;;
-    Ok (F4 language ends starts deltas ros gids)
-  else if fmt =? 6 then
-    '(_length, d) <- rd_u16 d ;;
-    '(language, d) <- rd_u16 d ;;
-    '(first_code, d) <- rd_u16 d ;;
-    '(entry_count, d) <- rd_u16 d ;;
-    '(gids, d) <- rd_u16s entry_count d ;;
-    Ok (F6 language first_code gids)
-  else if fmt =? 10 then
-    '(reserved, d) <- rd_u16 d ;;
-    _ <- check (reserved =? 0) ;;
-    '(_length, d) <- rd_u32 d ;;
-    '(language, d) <- rd_u32 d ;;
-    '(start_char_code, d) <- rd_u32 d ;;
-    '(num_chars, d) <- rd_u32 d ;;
-    '(gids, d) <- rd_u16s num_chars d ;;
-    Ok (F10 language start_char_code gids)
-  else if fmt =? 12 then
-    '(reserved, d) <- rd_u16 d ;;
-    _ <- check (reserved =? 0) ;;
-    '(_length, d) <- rd_u32 d ;;
-    '(language, d) <- rd_u32 d ;;
-    '(num_groups, d) <- rd_u32 d ;;
-    '(items, d) <- rd_array 12 num_groups d ;;
-    Ok (F12 language (map decode_group items))
+  if fmt =? 0 then parse0 d
+  else if fmt =? 2 then parse2 d
+  else if fmt =? 4 then parse4 d
+  else if fmt =? 6 then parse6 d
+  else if fmt =? 10 then parse10 d
+  else if fmt =? 12 then parse12 d
   else Err BadVersion.
 
 (* ------------------------------------------------------------------------------------------- *)
